@@ -882,3 +882,166 @@ V('v11.s1', 'C11', 'S', None, 'list() instead of deepcopy', (MODELS, 'BaseModel.
 V('v11.s2', 'C11', 'S', None, 'ALIASES aliased then rebuilt by a comprehension',
   (XCOMMON, 'AliasMixin.__init__', 'aliases = copy.deepcopy(self.ALIASES)', 'aliases = dict(self.ALIASES)'))
 V('v11.s3', 'C11', 'S', None, 'ALIASES read without copy but rebuilt before the store', (XCOMMON, 'AliasMixin.__init__', 'aliases = copy.deepcopy(self.ALIASES)', 'aliases = self.ALIASES'))
+
+# ---------------------------------------------------------------------------
+# C12
+# ---------------------------------------------------------------------------
+RX = 'VectorContainer.reindex'
+V('v12.1', 'C12', 'F', 'C12.R5', 'map consumed crossed', (CONT, RX, 'reindexed[name][new] = self[name][old]', 'reindexed[name][old] = self[name][new]'))
+V('v12.1b', 'C12', 'F', 'C12.R5', 'map built old -> new', (CONT, RX, 'positions[i] = self._locate_period_in_span(period)', 'positions[self._locate_period_in_span(period)] = i'))
+V('v12.2', 'C12', 'F', 'C12.R2', 'integer default -1', (CONT, RX, "                    value = 0\n", "                    value = -1\n"))
+V('v12.2b', 'C12', 'F', 'C12.R2', 'bool fill not coerced', (CONT, RX, "                    value = bool(value)\n", "                    value = value\n"))
+V('v12.2c', 'C12', 'F', 'C12.R2', 'str default None', (CONT, RX, "                    value = ''\n", "                    value = 'None'\n"))
+V('v12.3', 'C12', 'F', 'C12.R2', 'iterations default 0', (MODELS, 'BaseModel.reindex', "fill_values.get('iterations', -1)", "fill_values.get('iterations', 0)"))
+V('v12.3b', 'C12', 'F', 'C12.R2', "status default overrides the caller's", (MODELS, 'BaseModel.reindex', "fill_values['status'] = fill_values.get('status', SolutionStatus.UNSOLVED.value)", "fill_values['status'] = SolutionStatus.UNSOLVED.value"))
+V('v12.3c', 'C12', 'F', 'C12.R2', 'BaseModel.reindex drops fill_value', (MODELS, 'BaseModel.reindex', 'span, fill_value=fill_value, strict=strict, **fill_values', 'span, strict=strict, **fill_values'))
+V('v12.4', 'C12', 'F', 'C12.R1', 'reindexed = self', (CONT, RX, 'reindexed = self.copy()', 'reindexed = self'))
+V('v12.4b', 'C12', 'F', 'C12.R1', 'original span replaced too', (CONT, RX, "        reindexed.__dict__['span'] = span  # Use to bypass `strict`\n", "        reindexed.__dict__['span'] = span  # Use to bypass `strict`\n        self.__dict__['span'] = span\n"))
+V('v12.5', 'C12', 'F', 'C12.R4', 'strict check after the copy loop',
+  (CONT, RX, """        if strict:
+            # Check for variables in `fill_values` but not in the object index
+            undefined_variables = set(fill_values.keys()) - set(self.index)
+            if undefined_variables:
+                raise KeyError(
+                    f"Found {len(undefined_variables)} undefined variable(s) "
+                    f"with `strict=True`: {', '.join(sorted(undefined_variables))}"
+                )
+""", ''),
+  (CONT, RX, "        return reindexed", """        if strict:
+            undefined_variables = set(fill_values.keys()) - set(self.index)
+            if undefined_variables:
+                raise KeyError(f"Found {len(undefined_variables)} undefined variable(s)")
+
+        return reindexed"""))
+V('v12.5b', 'C12', 'F', 'C12.R4', 'unknown fills rejected regardless of strict', (CONT, RX, "        if strict:\n            # Check for variables", "        if True:\n            # Check for variables"))
+V('v12.6', 'C12', 'F', 'C12.R3', 'per-variable fill ignored', (CONT, RX, 'value = fill_values.get(name, fill_value)', 'value = fill_value'))
+V('v12.7', 'C12', 'F', 'C12.R2', 'new arrays sized by the old span', (CONT, RX, 'len(span), value, dtype=self[name].dtype', 'len(self.span), value, dtype=self[name].dtype'))
+
+# ---------------------------------------------------------------------------
+# C16
+# ---------------------------------------------------------------------------
+EV = 'VectorContainer.eval'
+RI = 'VectorContainer._resolve_expression_indexes'
+V('v16.1', 'C16', 'F', 'C16.R1', 'shift fills the input in place', (FUNCS, 'shift', 'shifted = np.roll(x, shift=p)', 'shifted = x'))
+V('v16.1b', 'C16', 'F', 'C16.R1', 'diff refills the input', (FUNCS, 'diff', '        differenced = x - lag(x, d, fill_value=fill_value)\n        differenced[:d] = fill_value', '        differenced = x - lag(x, d, fill_value=fill_value)\n        x[:d] = fill_value'))
+V('v16.2', 'C16', 'F', 'C16.R2', 'lead shifts to the right', (FUNCS, 'lead', 'return shift(x, -p, fill_value=fill_value)', 'return shift(x, p, fill_value=fill_value)'))
+V('v16.2b', 'C16', 'F', 'C16.R2', 'lag drops fill_value', (FUNCS, 'lag', 'return shift(x, p, fill_value=fill_value)', 'return shift(x, p)'))
+V('v16.2c', 'C16', 'F', 'C16.R2', 'shift refills the wrong end for lags', (FUNCS, 'shift', '        shifted[:p] = fill_value\n', '        shifted[p:] = fill_value\n'))
+V('v16.2d', 'C16', 'F', 'C16.R2', 'dlog differences x, not log(x)', (FUNCS, 'dlog', 'return diff(log(x), d=d, fill_value=fill_value)', 'return diff(x, d=d, fill_value=fill_value)'))
+V('v16.2e', 'C16', 'F', 'C16.R2', 'diff subtracts a lead', (FUNCS, 'diff', '        differenced = x - lag(x, d, fill_value=fill_value)\n        differenced[:d]', '        differenced = x - lag(x, -d, fill_value=fill_value)\n        differenced[:d]'))
+V('v16.3', 'C16', 'F', 'C16.R3', 'caller locals applied before the variables',
+  (CONT, EV, """        # Update with model variables
+        locals_.update({x: self[x] for x in self.index})
+
+        # Add user locals as needed
+        if locals is not None:
+            locals_.update(locals)
+""", """        # Add user locals as needed
+        if locals is not None:
+            locals_.update(locals)
+
+        # Update with model variables
+        locals_.update({x: self[x] for x in self.index})
+"""))
+V('v16.4', 'C16', 'F', 'C16.R7', 'revert F5', (CONT, RI, 'if stop_is_label and isinstance(stop, int):', 'if isinstance(stop, int):'))
+V('v16.4b', 'C16', 'F', 'C16.R7', 'label test taken after resolution',
+  (CONT, RI, "            stop_is_label = '`' in stop\n\n", ''),
+  (CONT, RI, "            # Adjust for closed intervals on the right-hand side (mirroring\n", "            stop_is_label = '`' in str(stop)\n\n            # Adjust for closed intervals on the right-hand side (mirroring\n"))
+V('v16.5', 'C16', 'F', 'C16.R6', 'handler raises KeyError', (CONT, EV, """                raise AttributeError(
+                    f"Object has no attribute '{name}'. Did you mean: '{suggestions[0]}'?"
+                ) from e""", """                raise KeyError(
+                    f"Object has no attribute '{name}'. Did you mean: '{suggestions[0]}'?"
+                ) from e"""))
+V('v16.6', 'C16', 'F', 'C16.R4', 'helper table used without a copy', (CONT, EV, 'builtins = copy.deepcopy(_builtins)', 'builtins = _builtins'))
+V('v16.7', 'C16', 'F', 'C16.R5', 'eval caches the expression on the container', (CONT, EV, "        if '`' in expression:\n", "        self.__dict__['_last_expression'] = expression\n        if '`' in expression:\n"))
+V('v16.s1', 'C16', 'S', None, 'helper table copied with dict()', (CONT, EV, 'builtins = copy.deepcopy(_builtins)', 'builtins = dict(_builtins)'))
+V('v16.s2', 'C16', 'S', None, 'roll written positionally', (FUNCS, 'shift', 'shifted = np.roll(x, shift=p)', 'shifted = np.roll(x, p)'))
+
+# ---------------------------------------------------------------------------
+# C17
+# ---------------------------------------------------------------------------
+TM = 'TracerMixin'
+V('v17.1', 'C17', 'F', 'C17.R4', 'pass snapshot taken before the evaluation',
+  (XMODEL, f'{TM}._evaluate', """        super()._evaluate(
+            t, *args, trace=trace, reset=reset, iteration=iteration, **kwargs
+        )
+
+        # Store results *after* each iteration
+        if trace:
+            self.trace_t(t, iteration, *args, trace=trace, reset=reset, **kwargs)""", """        if trace:
+            self.trace_t(t, iteration, *args, trace=trace, reset=reset, **kwargs)
+
+        super()._evaluate(
+            t, *args, trace=trace, reset=reset, iteration=iteration, **kwargs
+        )"""))
+V('v17.2', 'C17', 'F', 'C17.R1', 'solve_t drops the base result', (XMODEL, f'{TM}.solve_t', 'return super().solve_t(t, *args, trace=trace, reset=reset, **kwargs)', 'super().solve_t(t, *args, trace=trace, reset=reset, **kwargs)\n        return True'))
+V('v17.3', 'C17', 'F', 'C17.R1', 'solve_t_before drops iteration',
+  (XMODEL, f'{TM}.solve_t_before', 't, *args, trace=trace, reset=reset, iteration=iteration, **kwargs', 't, *args, trace=trace, reset=reset, **kwargs'))
+V('v17.4', 'C17', 'F', 'C17.R2', 'end snapshot outside if trace',
+  (XMODEL, f'{TM}.solve_t_after', "        if trace:\n            self.trace_t(t, 'end', *args, trace=trace, reset=reset, **kwargs)", "        self.trace_t(t, 'end', *args, trace=trace, reset=reset, **kwargs)"))
+V('v17.5', 'C17', 'F', 'C17.R3', 'trace_t also writes status', (XMODEL, f'{TM}.trace_t', "        # Add the results to the `Trace`\n", "        self.status[t] = '-'\n        # Add the results to the `Trace`\n"))
+V('v17.6', 'C17', 'F', 'C17.R1', 'base _evaluate wrapped in try/except',
+  (XMODEL, f'{TM}._evaluate', """        super()._evaluate(
+            t, *args, trace=trace, reset=reset, iteration=iteration, **kwargs
+        )
+""", """        try:
+            super()._evaluate(
+                t, *args, trace=trace, reset=reset, iteration=iteration, **kwargs
+            )
+        except Exception:
+            pass
+"""))
+V('v17.7', 'C17', 'F', 'C17.R1', 'base solve_t skipped when tracing a solved period',
+  (XMODEL, f'{TM}.solve_t', "        return super().solve_t(", "        if trace and self.status[t] == '.':\n            return True\n        return super().solve_t("))
+V('v17.8', 'C17', 'F', 'C17.R4', "'before' snapshot relabelled 'start'",
+  (XMODEL, f'{TM}.solve_t_before', "self.trace_t(t, 'before', *args", "self.trace_t(t, 'start', *args"))
+V('v17.9', 'C17', 'F', 'C17.R3', 'snapshot aliases the series', (XMODEL, f'{TM}.trace_t', 'results = np.array([[self[x][t]] for x in names])', 'results = self.values[:, t : t + 1]'))
+V('v17.10', 'C17', 'F', 'C17.R1', 'reset forced on', (XMODEL, f'{TM}.solve_t_after', 't, *args, trace=trace, reset=reset, iteration=iteration, **kwargs', 't, *args, trace=trace, reset=True, iteration=iteration, **kwargs'))
+
+# ---------------------------------------------------------------------------
+# C18
+# ---------------------------------------------------------------------------
+AM = 'AliasMixin'
+V('v18.1', 'C18', 'F', 'C18.R1', '__setitem__ tuple path unresolved',
+  (XCOMMON, f'{AM}.__setitem__', "key = tuple([self._resolve_alias(name)] + list(index))", "key = tuple([name] + list(index))"))
+V('v18.1b', 'C18', 'F', 'C18.R1', '__getattr__ unresolved', (XCOMMON, f'{AM}.__getattr__', 'return super().__getattr__(self._resolve_alias(name))', 'return super().__getattr__(name)'))
+V('v18.1c', 'C18', 'F', 'C18.R1', '__getitem__ drops the index part', (XCOMMON, f'{AM}.__getitem__', "key = tuple([self._resolve_alias(name)] + list(index))", "key = self._resolve_alias(name)"))
+V('v18.1d', 'C18', 'F', 'C18.R1', 'resolver falls back to None', (XCOMMON, f'{AM}._resolve_alias', 'return self.aliases.get(alias, alias)', 'return self.aliases.get(alias)'))
+V('v18.2', 'C18', 'F', 'C18.R2', 'constructor kwargs unresolved', (XCOMMON, f'{AM}.__init__', '*args, **{self._resolve_alias(k): v for k, v in kwargs.items()}', '*args, **kwargs'))
+V('v18.2b', 'C18', 'F', 'C18.R2', 'chain shortened only once',
+  (XCOMMON, f'{AM}.__init__', "        while True:\n", "        for _ in range(1):\n"))
+V('v18.3', 'C18', 'F', 'C18.R3', 'aliases get their own series',
+  (XCOMMON, f'{AM}.__init__', "        self.__dict__['preferred_names'] = preferred_names\n", "        self.__dict__['preferred_names'] = preferred_names\n        self.__dict__['_alias_store'] = {a: None for a in aliases}\n"))
+V('v18.4', 'C18', 'F', 'C18.R4', 'replace_values writes the backing store directly',
+  (CONT, 'VectorContainer.replace_values', "            self.__setitem__(k, v)", "            self.__dict__['_' + k][:] = v"))
+V('v18.5', 'C18', 'F', 'C18.R5', 'export drops aliased columns before renaming',
+  (XCOMMON, f'{AM}.to_dataframe', "            return df.rename(columns={v: k for k, v in self.aliases.items()})", "            return df.drop(columns=list(self.aliases.values())[1:]).rename(columns={v: k for k, v in self.aliases.items()})"))
+V('v18.5b', 'C18', 'F', 'C18.R5', 'export duplicates columns under their aliases',
+  (XCOMMON, f'{AM}.to_dataframe', "        return df.rename(columns=replacements)", "        for k_, v_ in replacements.items():\n            df[v_] = df[k_]\n        return df"))
+
+# ---------------------------------------------------------------------------
+# C19
+# ---------------------------------------------------------------------------
+V('v19.1', 'C19', 'F', 'C19.R1', 'revert F8',
+  (TOOLS, 'dataframe_to_symbols', """        for key in ('name', 'equation', 'code'):
+            if not isinstance(entry[key], str):
+                entry[key] = None
+
+""", ''))
+V('v19.1b', 'C19', 'F', 'C19.R1', 'leads no longer restored', (TOOLS, 'dataframe_to_symbols', "        entry['leads'] = convert_to_int_or_none(entry['leads'])\n", ''))
+V('v19.2', 'C19', 'F', 'C19.R2', 'frame built from the stacked values',
+  (TOOLS, 'model_to_dataframe', 'df = DataFrame({k: model[k] for k in names}, index=model.span)', 'df = DataFrame(model.values.T, columns=model.names, index=model.span)'))
+V('v19.3', 'C19', 'F', 'C19.R2', 'underscore filter inverted', (TOOLS, 'model_to_dataframe', '    if not include_internal:\n', '    if include_internal:\n'))
+V('v19.3b', 'C19', 'F', 'C19.R2', 'status column under the iterations flag', (TOOLS, 'model_to_dataframe', "    if status:\n        df['status'] = model.status", "    if iterations:\n        df['status'] = model.status"))
+V('v19.3c', 'C19', 'F', 'C19.R2', 'iterations column holds status', (TOOLS, 'model_to_dataframe', "df['iterations'] = model.iterations", "df['iterations'] = model.status"))
+V('v19.4', 'C19', 'F', 'C19.R3', 'submodels always exported with status',
+  (TOOLS, 'linker_to_dataframes', """        results[name] = model.to_dataframe(
+            status=status, iterations=iterations, include_internal=include_internal""", """        results[name] = model.to_dataframe(
+            status=True, iterations=iterations, include_internal=include_internal"""))
+V('v19.4b', 'C19', 'F', 'C19.R3', 'BaseModel.to_dataframe crosses flags', (MODELS, 'BaseModel.to_dataframe', '            status=status,\n            iterations=iterations,', '            status=iterations,\n            iterations=status,'))
+V('v19.5', 'C19', 'F', 'C19.R4', 'from_dataframe always lists the index',
+  (MODELS, 'BaseModel.from_dataframe', """        if not isinstance(
+            index, (DatetimeIndex, MultiIndex, PeriodIndex, TimedeltaIndex)
+        ):
+            index = list(index)""", """        index = list(index)"""))
+V('v19.5b', 'C19', 'F', 'C19.R4', 'columns passed positionally lose their names', (MODELS, 'BaseModel.from_dataframe', '**{k: v.values for k, v in data.items()}', '**{k.lower(): v.values for k, v in data.items()}'))
